@@ -1,0 +1,7 @@
+//go:build !verif
+
+package batcher
+
+// verifPoint marks a point of interest for the verification harness; without the
+// `verif` build tag it is an empty function that the compiler removes.
+func verifPoint(name string, arg interface{}) {}
